@@ -9,6 +9,12 @@ written to lean/BumpverVerif/Gen/F_<name>.lean (namespace BV.GenF).  The theorem
 equal to the hand-written model, so that an edit of the Python function breaks a proof
 obligation deterministically.
 
+Functions whose signature-table entry has `exc=True` (the bump core of v2version.py:
+_iter_reset_field_items, _reset_rollover_fields, _incr_numeric, incr) return `Except PErr T`
+and may use generators, dicts, run-time field names, try/except, keyword-only parameters,
+calls of other translated functions and calls abstracted as model functions.  Two support
+files are generated besides (list `SUPPORT`): Gen/F_PyPrelude.lean and Gen/F_VInfoDyn.lean.
+
 The supported subset, the typing and truthiness rules and the signature table are
 documented in harness/TRANSLATE_FUNCS.md.  Anything outside the subset raises
 `Untranslatable(function, node, reason)`; the output file is then written with a comment
@@ -85,6 +91,20 @@ def OPAQUE(lean):     # a type the functions never look into
     return ("opaque", lean)
 
 
+DYN = ("dyn",)        # a value whose type is only known at run time: None | int >= 0 | str (model `FV`)
+
+
+def DICT(k, v):       # insertion-ordered dict, Lean association list `List (K × V)` with distinct keys
+    return ("dict", k, v)
+
+
+def EXC(t):           # the value of an abstracted expression that may raise: `Except PErr T`
+    return ("exc", t)
+
+
+DATE = TUP(NAT, NAT, NAT)   # datetime.date as (year, month, day), as in the model
+
+
 def is_intlike(t):
     return t in (INT, NAT, LIT)
 
@@ -102,7 +122,12 @@ LEAN_KEYWORDS = {
 
 
 def lean_ident(name):
+    if name == "yield":      # not a Python identifier: the translator's key for a generator's accumulator
+        return YIELD_ACC
     return name + "_" if name in LEAN_KEYWORDS else name
+
+
+YIELD_ACC = "yielded"
 
 
 def lean_str(s):
@@ -162,7 +187,12 @@ RECORDS = {
         fields=[(p, "cal." + l, OPT(NAT)) for p, l in zip(CAL_FIELDS, CAL_LEAN)]
         + [("major", "major", NAT), ("minor", "minor", NAT), ("patch", "patch", NAT),
            ("bid", "bid", STR), ("tag", "tag", STR), ("pytag", "pytag", STR),
-           ("num", "num", NAT), ("inc0", "inc0", NAT), ("inc1", "inc1", NAT)]),
+           ("num", "num", NAT), ("inc0", "inc0", NAT), ("inc1", "inc1", NAT)],
+        # THE ABSTRACTION's restriction, used only by the run-time views (getattr by a run-time name,
+        # `_asdict()`, `V2VersionInfo(**d)`): a Lean `VInfo` stands for the V2VersionInfo values whose
+        # unmodelled fields hold these constants (model: `VInfo.get` returns `.str []` for them)
+        consts={"githash": (STR, ""), "hexhash": (STR, "")},
+        dyn="F_VInfoDyn"),
     # config.Config: GENERATED structure (all fields of the class, in order)
     "Config": dict(
         lean="Config α", source=("config.py", "Config"), generated=True, params="(α : Type)",
@@ -186,7 +216,58 @@ CONSTRUCTORS = {
     "V2CalendarInfo": ("rec", "CalOpt"),
     "config.TagScope": ("enum", "TagScope"),      # by value; ValueError when no member has it
     "TagScope": ("enum", "TagScope"),
+    "version.V2VersionInfo": ("rec", "VInfo"),    # not `exact`: only the `V2VersionInfo(**d)` form
+    "V2VersionInfo": ("rec", "VInfo"),
 }
+
+# python exception class -> constructor of the model's `PErr` (functions with `exc=True` return
+# `Except PErr T`).  AttributeError has no constructor of its own in the model: `.unsupported`.
+EXCEPTIONS = {
+    "KeyError": "PErr.keyError", "TypeError": "PErr.typeError", "ValueError": "PErr.valueError",
+    "OverflowError": "PErr.overflow", "version.PatternError": "PErr.pattern", "PatternError": "PErr.pattern",
+    "AttributeError": "PErr.unsupported",
+}
+
+# record -> record coercions by a MODEL function (Python has one class for both)
+REC_COERCIONS = {
+    ("CalInfo", "CalOpt"): "%s.toOpt",
+}
+
+# Calls that are NOT translated but abstracted as a model function / a trusted primitive.  A function may
+# only use the entries its signature-table entry lists under `abstract`.  `{0}`, `{1}` = the (atomic)
+# arguments; `{ext:<expr>}` = the caller's extern parameter for that expression.
+#   exc    : the call returns `Except PErr T`
+#   option : the call returns `Option T`; `none` is the named exception
+ABSTRACT_CALLS = {
+    "lexid.next_id": dict(lean="(BV.nextId {0})", params=[STR], ret=STR, option="OverflowError"),
+    "parse_version_info": dict(lean="(BV.parseVersionInfo {0} {1} {ext:version.TODAY})", params=[STR, STR],
+                               ret=REC("VInfo"), exc=True),
+    "cal_info": dict(lean="(BV.calInfo {0}.1 {0}.2.1 {0}.2.2)", params=[DATE], ret=REC("CalInfo")),
+    "format_version": dict(lean="(BV.formatVersion {0} {1})", params=[REC("VInfo"), STR], ret=STR, exc=True),
+    "_parse_pattern_fields": dict(lean="(BV.parsePatternFields {0})", params=[STR], ret=LIST(STR), exc=True),
+}
+
+
+def generated_tables():
+    """python dotted name -> Lean name of the str->str tables that harness/gen_tables.py GENERATES
+    (read from the `lean_pairs("<lean name>", "`<python name>` ...", ...)` calls of its source, so the
+    pairing is the table generator's, not repeated here)"""
+    out = {}
+    try:
+        with open(os.path.join(HERE, "gen_tables.py"), encoding="utf-8") as f:
+            tree = ast.parse(f.read())
+    except (OSError, SyntaxError):
+        return out
+    for n in ast.walk(tree):
+        if (isinstance(n, ast.Call) and isinstance(n.func, ast.Name) and n.func.id == "lean_pairs"
+                and len(n.args) >= 2 and all(isinstance(a, ast.Constant) and isinstance(a.value, str) for a in n.args[:2])):
+            doc = n.args[1].value
+            if doc.startswith("`") and "`" in doc[1:]:
+                out[doc[1:doc.index("`", 1)]] = "Gen." + n.args[0].value
+    return out
+
+
+TABLES = generated_tables()
 
 # dotted python expression -> (file, class, record) : the `_fields` tuple of a NamedTuple
 FIELD_TUPLES = {
@@ -227,6 +308,39 @@ FUNCS = [
          # the callers pass `match.group(...)`: both arguments are Optional[str]
          params=[("letter", OPT(STR)), ("number", OPT(STR))],
          ret=OPT(TUP(STR, NAT)), imports=["BumpverVerif.Model.Pep440"]),
+    # ---- the bump core of v2version.py (functions with `exc=True` return `Except PErr T`) ----
+    dict(name="iterResetFieldItems", file="v2version.py", func="_iter_reset_field_items", exc=True,
+         params=[("fields", LIST(STR)), ("old_vinfo", REC("VInfo")), ("cur_vinfo", REC("VInfo"))],
+         ret=LIST(TUP(STR, STR)),                                 # a generator: the list it yields
+         imports=["BumpverVerif.Model.V2Version"]),
+    dict(name="resetRolloverFields", file="v2version.py", func="_reset_rollover_fields", exc=True,
+         params=[("raw_pattern", STR), ("old_vinfo", REC("VInfo")), ("cur_vinfo", REC("VInfo"))],
+         ret=REC("VInfo"),
+         externs={"_parse_pattern_fields(raw_pattern)": ("fields", EXC(LIST(STR)))},
+         imports=["BumpverVerif.Model.V2Version"]),
+    dict(name="incrNumeric", file="v2version.py", func="_incr_numeric", exc=True,
+         params=[("raw_pattern", STR), ("old_vinfo", REC("VInfo")), ("cur_vinfo", REC("VInfo")),
+                 ("major", BOOL), ("minor", BOOL), ("patch", BOOL), ("tag", OPT(STR)),
+                 ("tag_num", BOOL), ("pin_increments", BOOL)],
+         ret=REC("VInfo"),
+         externs={"_parse_pattern_fields(raw_pattern)": ("fields", EXC(LIST(STR)))},
+         abstract=["lexid.next_id"],
+         imports=["BumpverVerif.Model.V2Version"]),
+    dict(name="incr", file="v2version.py", func="incr", exc=True,
+         params=[("old_version", STR), ("raw_pattern", STR), ("major", BOOL), ("minor", BOOL),
+                 ("patch", BOOL), ("tag", OPT(STR)), ("tag_num", BOOL), ("pin_increments", BOOL),
+                 ("pin_date", BOOL), ("maybe_date", OPT(DATE))],
+         ret=OPT(STR),
+         externs={"version.TODAY": ("today", DATE)},
+         abstract=["parse_version_info", "cal_info", "format_version", "_parse_pattern_fields"],
+         imports=["BumpverVerif.Model.V2Version"]),
+]
+
+
+# support files that are not the translation of one function (rendered before FUNCS by `generate`)
+SUPPORT = [
+    dict(name="PyPrelude", kind="prelude"),                      # Gen/F_PyPrelude.lean (fixed text)
+    dict(name="VInfoDyn", kind="recdyn", record="VInfo"),        # Gen/F_VInfoDyn.lean (from the class definition)
 ]
 
 
@@ -286,10 +400,11 @@ class Sources:
 
 
 class Var:
-    def __init__(self, lean, type_, narrowed_from=None):
+    def __init__(self, lean, type_, narrowed_from=None, digits=False):
         self.lean = lean
         self.type = type_
         self.narrowed_from = narrowed_from
+        self.digits = digits      # a str known to be a non-empty digit string (inside `if x.isdigit():`)
 
     def root(self):
         v = self
@@ -312,6 +427,11 @@ class FuncTranslator:
         self.enums = {}
         self.raises = False
         self.loop_k = []          # continuations of the enclosing accumulation loops (`continue`)
+        self.exc = bool(spec.get("exc"))   # the function returns `Except PErr T`
+        self.events = 0           # number of raising calls / raise statements seen so far (for probes)
+        self.extra_imports = []   # Gen files of translated callees / run-time views
+        self.generator = False    # the function contains `yield`
+        self.params = {}          # python parameter name -> its (never reassigned?) Var
 
     # -- errors ---------------------------------------------------------------------
     def bad(self, node, reason):
@@ -388,6 +508,12 @@ class FuncTranslator:
             return t[1]
         if k == "proj":
             return "%s → %s" % (RECORDS[t[1]]["lean"], self.lean_type(t[2]))
+        if k == "dyn":
+            return "FV"
+        if k == "dict":
+            return "List (%s × %s)" % (self.lean_type(t[1]), self.lean_type(t[2]))
+        if k == "exc":
+            return "Except PErr %s" % self.paren_type(t[1])
         self.bad(None, "no Lean type for %r" % (t,))
 
     def paren_type(self, t):
@@ -428,6 +554,11 @@ class FuncTranslator:
         if a[0] == "tuple" and b[0] == "tuple" and len(a[1]) == len(b[1]):
             us = [self.unify(x, y) for x, y in zip(a[1], b[1])]
             return TUP(*us) if all(us) else None
+        if a[0] == "rec" and b[0] == "rec":
+            if (a[1], b[1]) in REC_COERCIONS:
+                return b
+            if (b[1], a[1]) in REC_COERCIONS:
+                return a
         return None
 
     def coerce(self, lean, frm, to, node=None):
@@ -448,6 +579,20 @@ class FuncTranslator:
                 return "(%s.map Int.ofNat)" % lean
         if to[0] == "list" and frm[0] == "list" and (frm[1] is None or frm[1] == to[1]):
             return lean
+        if to == DYN:
+            # a statically typed value stored where only the run-time type is known
+            if frm in (NAT, LIT):
+                return "(FV.nat %s)" % lean
+            if frm == STR:
+                return "(FV.str %s)" % lean
+            if frm == NONE:
+                return "FV.none"
+            if frm == OPT(NAT):
+                return "(match %s with | some n => FV.nat n | none => FV.none)" % lean
+        if to[0] == "rec" and frm[0] == "rec":
+            if (frm[1], to[1]) in REC_COERCIONS:
+                return "(" + REC_COERCIONS[(frm[1], to[1])] % lean + ")"
+            return self.project_record(lean, frm[1], to[1], node)
         if to[0] == "tuple" and frm[0] == "tuple" and len(to[1]) == len(frm[1]):
             n = len(to[1])
             projs = ["p" + ".2" * i + (".1" if i < n - 1 else "") for i in range(n)]
@@ -456,6 +601,18 @@ class FuncTranslator:
                 return lean          # every component is used as it is
             return "(let p := %s; (%s))" % (lean, ", ".join(parts))
         self.bad(node, "cannot use a value of type %r where %r is expected" % (frm, to))
+
+    def project_record(self, lean, frm, to, node):
+        """duck typing: a record with (at least) the python fields of `to`, of the same types, used where
+        `to` is expected (e.g. a V2VersionInfo passed to `_is_cal_gt`): projected field by field"""
+        rf, rt = self.record(frm), self.record(to)
+        items = []
+        for f, path, ft in rt["fields"]:
+            hit = [x for x in rf["fields"] if x[0] == f]
+            if not hit or hit[0][2] != ft:
+                self.bad(node, "a %s cannot be used as a %s: field `%s` is missing or has another type" % (frm, to, f))
+            items.append("%s := %s.%s" % (path, lean, hit[0][1]))
+        return "({ " + ", ".join(items) + " } : %s)" % rt["lean"]
 
     # -- names --------------------------------------------------------------------------
     def fresh(self, base):
@@ -471,6 +628,9 @@ class FuncTranslator:
         if isinstance(node, (ast.Call, ast.Attribute, ast.Name)):
             key = ast.unparse(node)
             if key in ext and not (isinstance(node, ast.Name) and node.id in env):
+                if ext[key][1][0] == "exc":
+                    # the abstracted expression may raise: its value is an `Except`, evaluated here
+                    return self.add_hoist(node, "v", ext[key][0]), ext[key][1][1]
                 return ext[key][0], ext[key][1]
 
         if isinstance(node, ast.Constant):
@@ -504,7 +664,25 @@ class FuncTranslator:
             self.bad(node, "record %s has no (modelled) field `%s`" % (t[1], node.attr))
 
         if isinstance(node, ast.Subscript):
+            if ast.unparse(node.value) in TABLES and not self.shadowed(node.value, env):
+                # GENERATED table[key]: KeyError when the key is missing
+                k, tk = self.expr(node.slice, env)
+                if tk != STR:
+                    self.bad(node, "table subscript with a key of type %r" % (tk,))
+                if not self.exc:
+                    self.bad(node, "a KeyError needs a function with `exc`")
+                v = self.add_hoist(node, "v", "(lookup %s %s)" % (k, TABLES[ast.unparse(node.value)]),
+                                   ("option", EXCEPTIONS["KeyError"]))
+                return v, STR
             val, t = self.expr(node.value, env)
+            if t[0] == "dict":
+                k, tk = self.expr(node.slice, env)
+                if tk != t[1]:
+                    self.bad(node, "dict subscript with a key of type %r" % (tk,))
+                if not self.exc:
+                    self.bad(node, "a KeyError needs a function with `exc`")
+                v = self.add_hoist(node, "v", "(lookup %s %s)" % (k, val), ("option", EXCEPTIONS["KeyError"]))
+                return v, t[2]
             if t[0] != "tuple" or not (isinstance(node.slice, ast.Constant) and isinstance(node.slice.value, int)):
                 self.bad(node, "only constant subscripts of known tuples are supported")
             i, n = node.slice.value, len(t[1])
@@ -528,7 +706,7 @@ class FuncTranslator:
             return self.compare(node, env), BOOL
 
         if isinstance(node, ast.BoolOp):
-            parts = [self.expr(v, env) for v in node.values]
+            parts = [self.expr(node.values[0], env)] + [self.no_hoists(lambda v=v: self.expr(v, env)) for v in node.values[1:]]
             if any(t != BOOL for _, t in parts):
                 self.bad(node, "`and`/`or` used as a VALUE needs bool operands (in a test position any type is fine)")
             op = " && " if isinstance(node.op, ast.And) else " || "
@@ -554,6 +732,26 @@ class FuncTranslator:
             return self.call(node, env)
 
         self.bad(node, "expression form %s is outside the subset" % type(node).__name__)
+
+    def shadowed(self, node, env):
+        """the head name of a dotted expression is a local variable (then it is not the module / table)"""
+        while isinstance(node, ast.Attribute):
+            node = node.value
+        return isinstance(node, ast.Name) and node.id in env
+
+    def need_import(self, mod):
+        if mod not in self.spec.get("imports", []) and mod not in self.extra_imports:
+            self.extra_imports.append(mod)
+
+    def dyn_view(self, t, node, what):
+        """the generated run-time views (getattr by name / _asdict / Rec(**d)) of a record type"""
+        if t[0] != "rec" or not RECORDS[t[1]].get("dyn"):
+            self.bad(node, "%s needs a record with generated run-time views, not %r" % (what, t))
+        if not self.exc:
+            self.bad(node, "%s needs a function with `exc`" % what)
+        self.record(t[1])
+        self.need_import("BumpverVerif.Gen.%s" % RECORDS[t[1]]["dyn"])
+        return t[1]
 
     def list_literal(self, node, env):
         parts = [self.expr(e, env) for e in node.elts]
@@ -640,7 +838,10 @@ class FuncTranslator:
         operands = [node.left] + list(node.comparators)
         parts = []
         for i, op in enumerate(node.ops):
-            parts.append(self.compare1(op, operands[i], operands[i + 1], env, node))
+            if i == 0:
+                parts.append(self.compare1(op, operands[i], operands[i + 1], env, node))
+            else:       # `a < b < c` evaluates c only when a < b
+                parts.append(self.no_hoists(lambda i=i, op=op: self.compare1(op, operands[i], operands[i + 1], env, node)))
         if len(parts) == 1:
             return parts[0]
         return "(" + " && ".join(parts) + ")"
@@ -666,8 +867,17 @@ class FuncTranslator:
 
         if isinstance(op, (ast.In, ast.NotIn)):
             a, ta = self.expr(ln, env)
-            b, tb = self.expr(rn, env)
             neg = "!" if isinstance(op, ast.NotIn) else ""
+            if ast.unparse(rn) in TABLES and not self.shadowed(rn, env):
+                if ta != STR:
+                    self.bad(node, "`in` on %r and a str table" % (ta,))
+                return "(%s(lookup %s %s).isSome)" % (neg, a, TABLES[ast.unparse(rn)])
+            b, tb = self.expr(rn, env)
+            if tb[0] == "dict":
+                if ta != tb[1]:
+                    self.bad(node, "`in` on %r and %r" % (ta, tb))
+                self.need_import("BumpverVerif.Gen.F_PyPrelude")
+                return "(%sBV.GenF.dictHas %s %s)" % (neg, a, b)
             if ta == STR and tb == STR:
                 return "(%sisInfix %s %s)" % (neg, a, b)
             if tb[0] == "list":
@@ -706,9 +916,171 @@ class FuncTranslator:
                     "≤": "(lexLe %s %s)" % (a, b), "≥": "(lexLe %s %s)" % (b, a)}[sym]
         self.bad(node, "ordering comparison on %r and %r" % (ta, tb))
 
+    def callee_spec(self, fname):
+        """the signature-table entry of a TRANSLATED function called as `name(...)` (same file) or
+        `module.name(...)`"""
+        for cs in FUNCS:
+            if cs is self.spec or cs.get("name") == self.spec.get("name"):
+                continue
+            if (fname == cs["func"] and cs["file"] == self.spec.get("file")) or fname == cs["file"][:-3] + "." + cs["func"]:
+                return cs
+        return None
+
+    def expand_star_kwargs(self, node, env):
+        """`f(**r._asdict())` with `r` a variable holding a record all of whose fields are modelled is
+        `f(k1=r.k1, ..., kn=r.kn)` (the fields in class order); other `**` arguments are left alone"""
+        kws = []
+        for kw in node.keywords:
+            v = kw.value
+            if (kw.arg is None and isinstance(v, ast.Call) and isinstance(v.func, ast.Attribute)
+                    and v.func.attr == "_asdict" and not v.args and not v.keywords
+                    and isinstance(v.func.value, ast.Name) and v.func.value.id in env
+                    and env[v.func.value.id].type[0] == "rec"):
+                r = self.record(env[v.func.value.id].type[1])
+                modelled = [x[0] for x in r["fields"]]
+                if r["pyorder"] != modelled:
+                    continue      # unmodelled fields: no static expansion
+                for f_ in r["pyorder"]:
+                    a = ast.Attribute(value=ast.Name(id=v.func.value.id, ctx=ast.Load()), attr=f_, ctx=ast.Load())
+                    kws.append(ast.copy_location(ast.keyword(arg=f_, value=a), kw))
+            else:
+                kws.append(kw)
+        new = ast.Call(func=node.func, args=node.args, keywords=kws)
+        ast.copy_location(new, node)
+        ast.fix_missing_locations(new)
+        return new
+
+    def bind_arguments(self, node, pnames, what):
+        """{parameter: argument node} of a call with positional and keyword arguments"""
+        if any(isinstance(a, ast.Starred) for a in node.args) or any(kw.arg is None for kw in node.keywords):
+            self.bad(node, "`*`/`**` arguments in a call of %s" % what)
+        if len(node.args) > len(pnames):
+            self.bad(node, "too many arguments for %s" % what)
+        actual = dict(zip(pnames, node.args))
+        for kw in node.keywords:
+            if kw.arg not in pnames or kw.arg in actual:
+                self.bad(node, "bad keyword argument `%s` for %s" % (kw.arg, what))
+            actual[kw.arg] = kw.value
+        missing = [p_ for p_ in pnames if p_ not in actual]
+        if missing:
+            self.bad(node, "no argument for %s of %s (defaults of a callee are not applied)" % (missing, what))
+        return actual
+
+    def spec_raises(self, cs):
+        """does a translated callee WITHOUT `exc` return an Option (`none` = ValueError)?"""
+        _, n = self.src.find(cs["file"], ast.FunctionDef, cs["func"])
+        if n is None:
+            self.bad(None, "callee %s not found" % cs["func"])
+        return any(isinstance(x, ast.Raise) for x in ast.walk(n)) or self.contains_exit_calls(n)
+
+    def extern_value(self, sub, et, env, node):
+        """the value, in the caller, of an expression that the CALLEE abstracts as a parameter (the callee's
+        parameters are already replaced by the actual arguments in `sub`)"""
+        key = ast.unparse(sub)
+        for n in ast.walk(sub):
+            if isinstance(n, ast.Name) and n.id in env and self.params.get(n.id) is not env[n.id]:
+                self.bad(node, "the abstracted expression `%s` of the callee mentions `%s`, which is not an "
+                               "unmodified parameter here" % (key, n.id))
+        mine = self.spec.get("externs", {})
+        if key in mine:
+            ln, t = mine[key]
+            if t == et:
+                return ln
+            if et[0] == "exc" and t == et[1]:
+                return "(Except.ok %s)" % ln
+            self.bad(node, "the abstracted expression `%s` has type %r here and %r in the callee" % (key, t, et))
+        if et[0] == "exc":
+            # handed over UNEVALUATED (as the `Except` value): the callee decides when it is evaluated
+            if isinstance(sub, ast.Call) and ast.unparse(sub.func) in self.spec.get("abstract", []):
+                v, t = self.call_abstract(sub, ast.unparse(sub.func), env, as_value=True)
+                if t != et[1]:
+                    self.bad(node, "the abstracted expression `%s` has type %r, the callee expects %r" % (key, t, et[1]))
+                return v
+            v, t = self.no_hoists(lambda: self.expr(sub, env))
+            return "(Except.ok %s)" % self.coerce(v, t, et[1], node)
+        v, t = self.no_hoists(lambda: self.expr(sub, env))
+        return self.coerce(v, t, et, node)
+
+    def call_translated(self, node, cs, env):
+        what = "`%s`" % cs["func"]
+        actual = self.bind_arguments(node, [p_ for p_, _ in cs["params"]], what)
+        args = []
+        for p_, pt in cs["params"]:
+            v, vt = self.expr(actual[p_], env)
+            args.append(self.coerce(v, vt, pt, actual[p_]))
+        for key, (ln, et) in cs.get("externs", {}).items():
+            tree = ast.parse(key, mode="eval").body
+
+            class Subst(ast.NodeTransformer):
+                def visit_Name(self_, n):
+                    return actual[n.id] if n.id in actual else n
+            sub = Subst().visit(tree)
+            ast.copy_location(sub, node)
+            ast.fix_missing_locations(sub)
+            args.append(self.extern_value(sub, et, env, node))
+        self.need_import("BumpverVerif.Gen.F_%s" % cs["name"])
+        app = "(BV.GenF.%s %s)" % (cs["name"], " ".join(args))
+        if cs.get("exc"):
+            if not self.exc:
+                self.bad(node, "%s can raise: the caller needs `exc`" % what)
+            return self.add_hoist(node, "v", app), cs["ret"]
+        if self.spec_raises(cs):
+            return self.add_hoist(node, "v", app, ("option", EXCEPTIONS["ValueError"]) if self.exc else None), cs["ret"]
+        return app, cs["ret"]
+
+    def call_abstract(self, node, fname, env, as_value=False):
+        """a call abstracted as a MODEL function / trusted primitive (`ABSTRACT_CALLS`)"""
+        d = ABSTRACT_CALLS[fname]
+        if node.keywords or len(node.args) != len(d["params"]) or any(isinstance(a, ast.Starred) for a in node.args):
+            self.bad(node, "`%s` is abstracted with exactly %d positional argument(s)" % (fname, len(d["params"])))
+        args = []
+        for a, pt in zip(node.args, d["params"]):
+            v, vt = self.expr(a, env)
+            args.append(self.coerce(v, vt, pt, a))
+        tmpl = d["lean"]
+        while "{ext:" in tmpl:
+            i = tmpl.index("{ext:")
+            j = tmpl.index("}", i)
+            key = tmpl[i + 5:j]
+            if key not in self.spec.get("externs", {}):
+                self.bad(node, "the abstraction of `%s` needs `%s` as a parameter" % (fname, key))
+            tmpl = tmpl[:i] + self.spec["externs"][key][0] + tmpl[j + 1:]
+        lets = []
+        for i, v in enumerate(args):
+            if tmpl.count("{%d}" % i) > 1 and not v.replace("_", "a").isalnum():
+                n = self.fresh("a")
+                lets.append((n, v))
+                args[i] = n
+        app = tmpl.format(*args)
+        for n, v in reversed(lets):
+            app = "(let %s := %s; %s)" % (n, v, app)
+        if d.get("exc"):
+            if not self.exc:
+                self.bad(node, "`%s` can raise: the caller needs `exc`" % fname)
+            if as_value:
+                return app, d["ret"]
+            return self.add_hoist(node, "v", app), d["ret"]
+        if d.get("option"):
+            if not self.exc:
+                self.bad(node, "`%s` can raise: the caller needs `exc`" % fname)
+            if as_value:
+                return "(match %s with | none => Except.error %s | some x => Except.ok x)" % (app, EXCEPTIONS[d["option"]]), d["ret"]
+            return self.add_hoist(node, "v", app, ("option", EXCEPTIONS[d["option"]])), d["ret"]
+        if as_value:
+            return "(Except.ok %s)" % app, d["ret"]
+        return app, d["ret"]
+
     def call(self, node, env):
         f = node.func
         fname = ast.unparse(f)
+        if any(kw.arg is None for kw in node.keywords):
+            node = self.expand_star_kwargs(node, env)
+        head_free = not self.shadowed(f, env)
+        cs = self.callee_spec(fname) if head_free else None
+        if cs is not None:
+            return self.call_translated(node, cs, env)
+        if head_free and fname in ABSTRACT_CALLS and fname in self.spec.get("abstract", []):
+            return self.call_abstract(node, fname, env)
         if node.keywords and not (isinstance(f, ast.Attribute) and f.attr == "_replace") \
                 and fname not in CONSTRUCTORS:
             self.bad(node, "keyword arguments")
@@ -736,10 +1108,32 @@ class FuncTranslator:
             a, ta = self.expr(node.args[0], env)
             if is_intlike(ta):
                 return a, ta
+            if ta == STR and self.exc:
+                arg = node.args[0]
+                if isinstance(arg, ast.Name) and arg.id in env and env[arg.id].digits:
+                    return "(strToNat %s)" % a, NAT          # inside `if s.isdigit():` int(s) cannot raise
+                # ValueError unless `s` is a non-empty string of ASCII digits (F_PyPrelude.pyInt)
+                self.need_import("BumpverVerif.Gen.F_PyPrelude")
+                return self.add_hoist(node, "v", "(BV.GenF.pyInt %s)" % a), NAT
             if ta == STR:
                 # int(s) for a string of ASCII digits (the callers' regexes guarantee that)
                 return "(strToNat %s)" % a, NAT
             self.bad(node, "int() of a value of type %r (would raise TypeError for None)" % (ta,))
+        if fname == "str" and len(node.args) == 1 and not node.keywords and "str" not in env:
+            a, ta = self.expr(node.args[0], env)
+            if ta == STR:
+                return a, STR
+            if ta in (NAT, LIT):
+                return "(natToStr %s)" % a, STR              # decimal digits, no sign (model `natToStr`)
+            self.bad(node, "str() of a value of type %r" % (ta,))
+        if fname == "dict" and len(node.args) == 1 and not node.keywords and "dict" not in env:
+            a, ta = self.expr(node.args[0], env)
+            if ta[0] == "list" and ta[1] is not None and ta[1][0] == "tuple" and len(ta[1][1]) == 2 and ta[1][1][0] == STR:
+                self.need_import("BumpverVerif.Gen.F_PyPrelude")
+                return "(BV.GenF.dictOfList %s)" % a, DICT(STR, ta[1][1][1])
+            if ta[0] == "dict":
+                return a, ta                                  # a copy of an immutable value
+            self.bad(node, "dict() of a value of type %r (only a list / generator of (str, value) pairs)" % (ta,))
         if fname == "len" and len(node.args) == 1:
             a, ta = self.expr(node.args[0], env)
             if ta == STR or ta[0] == "list":
@@ -752,12 +1146,27 @@ class FuncTranslator:
             fld, tf = self.expr(node.args[1], env)
             if tf[0] == "proj" and ta == REC(tf[1]):
                 return "(%s %s)" % (fld, a), tf[2]
+            if tf == STR and ta[0] == "rec" and RECORDS[ta[1]].get("dyn") and self.exc:
+                # the field NAME is a run-time string: the generated `getattr<Rec>` (AttributeError for an
+                # unknown name); the value's type is only known at run time
+                rn = self.dyn_view(ta, node, "getattr with a run-time name")
+                return self.add_hoist(node, "v", "(BV.GenF.getattr%s %s %s)" % (rn, a, fld)), DYN
             self.bad(node, "getattr needs a constant field name or the loop variable of a loop over the record's `_fields`")
         if fname in CONSTRUCTORS:
             kind, name = CONSTRUCTORS[fname]
+            if kind == "rec" and len(node.keywords) == 1 and node.keywords[0].arg is None and not node.args:
+                # Rec(**d) with a run-time dict: the generated `ofdict<Rec>` (TypeError for a missing or
+                # unexpected key)
+                d_, td = self.expr(node.keywords[0].value, env)
+                if td != DICT(STR, DYN):
+                    self.bad(node, "`%s(**d)` needs a dict of run-time values, not %r" % (fname, td))
+                rn = self.dyn_view(REC(name), node, "`%s(**d)`" % fname)
+                return self.add_hoist(node, "v", "(BV.GenF.ofdict%s %s)" % (rn, d_)), REC(name)
             if kind == "rec":
                 r = self.record(name)
                 fields = r["fields"]
+                if not r.get("exact"):
+                    self.bad(node, "the constructor of a record with unmodelled fields")
                 if len(node.args) + len(node.keywords) != len(fields):
                     self.bad(node, "constructor needs all %d fields" % len(fields))
                 vals = {}
@@ -779,14 +1188,39 @@ class FuncTranslator:
                 a, ta = self.expr(node.args[0], env)
                 if ta != STR:
                     self.bad(node, "enum constructor on a value of type %r" % (ta,))
-                if self.hoists is None:
-                    self.bad(node, "a call that can raise is only supported inside an assignment or return")
-                v = self.fresh("v")
-                self.hoists.append((v, "(%s.ofValue %s)" % (name, a)))
+                v = self.add_hoist(node, "v", "(%s.ofValue %s)" % (name, a),
+                                   ("option", EXCEPTIONS["ValueError"]) if self.exc else None)
                 return v, ENUM(name)
+        if isinstance(f, ast.Attribute) and ast.unparse(f.value) in TABLES and not self.shadowed(f.value, env):
+            # a GENERATED str -> str table
+            tb = TABLES[ast.unparse(f.value)]
+            if f.attr == "get" and len(node.args) == 1 and not node.keywords:
+                k_, tk_ = self.expr(node.args[0], env)
+                if tk_ != STR:
+                    self.bad(node, "table lookup with a key of type %r" % (tk_,))
+                return "(lookup %s %s)" % (k_, tb), OPT(STR)
+            self.bad(node, "method `%s` of a generated table (only `.get(key)`, `[key]`, `key in`)" % f.attr)
         if isinstance(f, ast.Attribute):
             recv, tr = self.expr(f.value, env)
             m = f.attr
+            if tr[0] == "dict" and not node.keywords:
+                if m == "items" and not node.args:
+                    return recv, LIST(TUP(tr[1], tr[2]))      # insertion order
+                if m == "keys" and not node.args:
+                    return "(List.map Prod.fst %s)" % recv, LIST(tr[1])
+                if m == "values" and not node.args:
+                    return "(List.map Prod.snd %s)" % recv, LIST(tr[2])
+                if m == "get" and len(node.args) == 1:
+                    k_, tk_ = self.expr(node.args[0], env)
+                    if tk_ != tr[1]:
+                        self.bad(node, "dict lookup with a key of type %r" % (tk_,))
+                    return "(lookup %s %s)" % (k_, recv), OPT(tr[2])
+                self.bad(node, "dict method `%s`" % m)
+            if m == "_asdict" and tr[0] == "rec" and not node.args and not node.keywords:
+                rn = self.dyn_view(tr, node, "`_asdict()` (other than `f(**r._asdict())`)")
+                return "(BV.GenF.asdict%s %s)" % (rn, recv), DICT(STR, DYN)
+            if m == "isdigit" and tr == STR and not node.args and not node.keywords:
+                return "(isDigitStr %s)" % recv, BOOL        # ASCII digits only (model `isDigitStr`)
             if m == "lower" and tr == STR and not node.args:
                 return "(lowerStr %s)" % recv, STR          # ASCII lower-casing (Model/Pep440.lowerStr)
             if m == "replace" and tr == STR and len(node.args) == 2:
@@ -801,6 +1235,8 @@ class FuncTranslator:
                 r = self.record(tr[1])
                 items = []
                 for kw in node.keywords:
+                    if kw.arg is None:
+                        self.bad(node, "`_replace(**d)` (only `_replace(**r._asdict())` with `r` a record variable)")
                     hit = [x for x in r["fields"] if x[0] == kw.arg]
                     if not hit:
                         self.bad(node, "_replace of unknown field `%s`" % kw.arg)
@@ -839,7 +1275,8 @@ class FuncTranslator:
         """a Lean Bool: the Python truth value of `node` (no narrowing)"""
         if isinstance(node, ast.BoolOp):
             op = " && " if isinstance(node.op, ast.And) else " || "
-            return "(" + op.join(self.truthy(v, env) for v in node.values) + ")"
+            return "(" + op.join([self.truthy(node.values[0], env)]
+                                 + [self.no_hoists(lambda v=v: self.truthy(v, env)) for v in node.values[1:]]) + ")"
         if isinstance(node, ast.UnaryOp) and isinstance(node.op, ast.Not):
             return "(!%s)" % self.truthy(node.operand, env)
         v, t = self.expr(node, env)
@@ -858,6 +1295,10 @@ class FuncTranslator:
             t = env[node.id].type
             if t[0] == "opt" and (t[1] != BOOL or top):
                 return "truthy"
+        if (self.exc and isinstance(node, ast.Call) and isinstance(node.func, ast.Attribute) and node.func.attr == "isdigit"
+                and not node.args and not node.keywords and isinstance(node.func.value, ast.Name)
+                and node.func.value.id in env and env[node.func.value.id].type == STR):
+            return "isdigit"          # `s.isdigit()` on a str VARIABLE: int(s) cannot raise where it holds
         return None
 
     def needs_split(self, node, env):
@@ -877,10 +1318,26 @@ class FuncTranslator:
         if isinstance(test, ast.BoolOp) and self.needs_split(test, env):
             first, rest = test.values[0], test.values[1:]
             more = rest[0] if len(rest) == 1 else ast.copy_location(ast.BoolOp(op=test.op, values=rest), test)
+            # (the statements inside tk/ek open their own hoisting scopes; a raising call in `more` itself
+            #  must not be hoisted above the test of `first`)
+            def more_k(e):
+                saved, self.hoists = self.hoists, None
+                try:
+                    return self.cond(more, e, tk, ek, top=False)
+                finally:
+                    self.hoists = saved
             if isinstance(test.op, ast.And):
-                return self.cond(first, env, lambda e: self.cond(more, e, tk, ek, top=False), ek, top=False)
-            return self.cond(first, env, tk, lambda e: self.cond(more, e, tk, ek, top=False), top=False)
+                return self.cond(first, env, more_k, ek, top=False)
+            return self.cond(first, env, tk, more_k, top=False)
         atom = self.narrowing_atom(test, env, top=top and not as_bool)
+        if atom == "isdigit":
+            var = env[test.func.value.id]
+            b = "(isDigitStr %s)" % var.lean
+            if as_bool:
+                return b
+            env2 = dict(env)
+            env2[test.func.value.id] = Var(var.lean, STR, narrowed_from=var, digits=True)
+            return "(if %s then %s else %s)" % (b, _nl(tk(env2)), _nl(ek(env)))
         if atom is not None:
             name = test.id if atom == "truthy" else test.left.id
             var = env[name]
@@ -920,14 +1377,65 @@ class FuncTranslator:
         finally:
             self.hoists = saved
         body = cont(val)
-        for name, e in reversed(hs):
-            body = "(match %s with\n  | none => none\n  | some %s => %s)" % (e, name, _arm(body))
+        for h in reversed(hs):
+            name, e = h[0], h[1]
+            kind = h[2] if len(h) > 2 else None
+            if kind is None and not self.exc:
+                body = "(match %s with\n  | none => none\n  | some %s => %s)" % (e, name, _arm(body))
+            elif kind is None:
+                body = "(match %s with\n  | .error err => Except.error err\n  | .ok %s => %s)" % (e, name, _arm(body))
+            elif self.exc:
+                # an Option-valued primitive; `none` stands for the exception `kind[1]`
+                body = "(match %s with\n  | none => Except.error %s\n  | some %s => %s)" % (e, kind[1], name, _arm(body))
+            else:
+                body = "(match %s with\n  | none => none\n  | some %s => %s)" % (e, name, _arm(body))
         return body
+
+    def add_hoist(self, node, base, e, kind=None):
+        """a call that can raise: it is evaluated BEFORE the statement (or test) it occurs in, in source
+        order; -> the Lean name of its value.  kind None: `e` has the function's own error type (Option in
+        the `none = ValueError` functions, `Except PErr` with `exc`); ("option", ctor): `e` is an Option
+        whose `none` is the exception `ctor`."""
+        if self.hoists is None:
+            self.bad(node, "a call that can raise is only supported inside an assignment or return")
+        self.events += 1
+        v = self.fresh(base)
+        self.hoists.append((v, e) if kind is None else (v, e, kind))
+        return v
+
+    def no_hoists(self, thunk):
+        """evaluate a sub-expression that Python may skip (right operand of and/or, branch of a
+        conditional expression): a raising call must not be hoisted out of it"""
+        saved, self.hoists = self.hoists, None
+        try:
+            return thunk()
+        finally:
+            self.hoists = saved
+
+    def probe(self, thunk):
+        """run a translation step for its side information only: names, hoists and the event counter are
+        restored; -> number of raising calls / raise statements it met"""
+        saved_c, saved_e = self.counter, self.events
+        saved_h = None if self.hoists is None else list(self.hoists)
+        saved_i = list(self.extra_imports)
+        try:
+            thunk()
+            return self.events - saved_e
+        finally:
+            self.counter, self.events = saved_c, saved_e
+            self.extra_imports = saved_i
+            if saved_h is not None and self.hoists is not None:
+                self.hoists[:] = saved_h
 
     def ret(self, node, env, at):
         rt = self.spec["ret"]
 
         def compute():
+            if self.generator:
+                # the end of a generator: the list of everything it yielded
+                if node is not None:
+                    self.bad(at, "`return value` inside a generator")
+                return env["yield"].lean, env["yield"].type
             if node is None:
                 return "none", NONE
             return self.expr(node, env)
@@ -935,6 +1443,8 @@ class FuncTranslator:
         def cont(vt):
             v, t = vt
             out = self.coerce(v, t, rt, at)
+            if self.exc:
+                return "(Except.ok %s)" % out
             return "(some %s)" % out if self.raises else out
         return self.with_hoists(compute, cont)
 
@@ -959,6 +1469,33 @@ class FuncTranslator:
 
     def as_assignment(self, st, env):
         """(target name, compute thunk) for the assignment-like statements, else None"""
+        if (isinstance(st, ast.Assign) and len(st.targets) == 1 and isinstance(st.targets[0], ast.Subscript)
+                and isinstance(st.targets[0].value, ast.Name) and st.targets[0].value.id in env
+                and env[st.targets[0].value.id].type[0] == "dict"):
+            # d[k] = v on a dict variable: the variable is rebound to the updated association list
+            dname = st.targets[0].value.id
+
+            def compute_set(e):
+                d = e[dname]
+                if d.type[0] != "dict":
+                    self.bad(st, "`%s` is not a dict here" % dname)
+                k_, tk_ = self.expr(st.targets[0].slice, e)
+                v_, tv_ = self.expr(st.value, e)
+                if tk_ != d.type[1]:
+                    self.bad(st, "dict key of type %r in a dict with keys %r" % (tk_, d.type[1]))
+                self.need_import("BumpverVerif.Gen.F_PyPrelude")
+                return "(BV.GenF.dictSet %s %s %s)" % (k_, self.coerce(v_, tv_, d.type[2], st), d.lean), d.type
+            return dname, compute_set
+        if isinstance(st, ast.Expr) and isinstance(st.value, ast.Yield):
+            # `yield e` = append to the list of yielded values (the generator is translated as that list)
+            if not self.generator or st.value.value is None:
+                self.bad(st, "`yield` without a value")
+
+            def compute_yield(e):
+                acc = e["yield"]
+                v_, tv_ = self.expr(st.value.value, e)
+                return "(%s ++ [%s])" % (acc.lean, self.coerce(v_, tv_, acc.type[1], st)), acc.type
+            return "yield", compute_yield
         if isinstance(st, ast.Assign):
             if len(st.targets) != 1 or not isinstance(st.targets[0], ast.Name):
                 self.bad(st, "only `name = expr` assignments")
@@ -1006,6 +1543,11 @@ class FuncTranslator:
         if isinstance(st, ast.Raise):
             exc = st.exc
             name = ast.unparse(exc.func) if isinstance(exc, ast.Call) else (ast.unparse(exc) if exc is not None else "")
+            self.events += 1
+            if self.exc:
+                if name not in EXCEPTIONS or st.cause is not None:
+                    self.bad(st, "only `raise E(...)` with E one of %s" % sorted(EXCEPTIONS))
+                return "(Except.error %s)" % EXCEPTIONS[name]
             if name != "ValueError":
                 self.bad(st, "only `raise ValueError(...)` is supported")
             return "none"
@@ -1021,6 +1563,8 @@ class FuncTranslator:
             return self.if_stmt(st, rest, env, k)
         if isinstance(st, ast.For):
             return self.for_stmt(st, rest, env, k)
+        if isinstance(st, ast.Try):
+            return self.try_stmt(st, rest, env, k)
         self.bad(st, "statement form %s is outside the subset" % type(st).__name__)
 
     def changed_vars(self, env, probes):
@@ -1037,18 +1581,32 @@ class FuncTranslator:
         return names
 
     def if_stmt(self, st, rest, env, k):
+        if self.exc:
+            # a raising call in the TEST is evaluated before the statement
+            return self.with_hoists(lambda: self.if_stmt0(st, rest, env, k), lambda s: s)
+        return self.if_stmt0(st, rest, env, k)
+
+    def if_stmt0(self, st, rest, env, k):
         def kr(e):
             return self.block(rest, e, k)
         if not self.contains_exit(st.body) and not self.contains_exit(st.orelse):
             # try the JOIN form: let (changed vars) := if .. then .. else ..; rest
-            saved = self.counter
             probes = []
+            branch_events = [0]
 
             def pk(e):
                 probes.append(e)
                 return "?"
-            self.cond(st.test, env, lambda e: self.block(st.body, e, pk), lambda e: self.block(st.orelse, e, pk))
-            self.counter = saved
+
+            def pbranch(stmts):
+                def run(e):
+                    before = self.events
+                    out = self.block(stmts, e, pk)
+                    branch_events[0] += self.events - before
+                    return out
+                return run
+            self.probe(lambda: self.cond(st.test, env, pbranch(st.body), pbranch(st.orelse)))
+            monadic = self.exc and branch_events[0] > 0      # a branch can raise: the join is a bind
             names = self.changed_vars(env, probes)
             # variables first defined inside a branch are only usable afterwards if every path defines them
             names = [n for n in names if all(n in pe for pe in probes)]
@@ -1068,17 +1626,22 @@ class FuncTranslator:
             if ok and names:
                 def tup(e):
                     vals = [self.coerce(e[n].lean, e[n].type, jt[n], st) for n in names]
-                    return vals[0] if len(vals) == 1 else "(" + ", ".join(vals) + ")"
+                    out = vals[0] if len(vals) == 1 else "(" + ", ".join(vals) + ")"
+                    return "(Except.ok %s)" % out if monadic else out
                 body = self.cond(st.test, env, lambda e: self.block(st.body, e, tup),
                                  lambda e: self.block(st.orelse, e, tup))
                 env2 = dict(env)
                 for n in names:
                     env2[n] = Var(lean_ident(n), jt[n])
+                pat = lean_ident(names[0]) if len(names) == 1 else "(" + ", ".join(lean_ident(n) for n in names) + ")"
+                if monadic:
+                    sty = " × ".join(self.lean_type(jt[n]) for n in names)
+                    return "(match (%s : Except PErr (%s)) with\n  | .error err => Except.error err\n  | .ok %s => %s)" % (
+                        body, sty, pat, _arm(kr(env2)))
                 if len(names) == 1:
                     return "let %s := %s;\n%s" % (lean_ident(names[0]), body, kr(env2))
-                pat = "(" + ", ".join(lean_ident(n) for n in names) + ")"
                 return "(match %s with\n  | %s => %s)" % (body, pat, _arm(kr(env2)))
-            if ok and not names:
+            if ok and not names and not monadic:
                 return kr(env)       # no effect (e.g. only dropped statements)
         # DUPLICATION form: the rest of the block is continued inside both branches
         return self.cond(st.test, env, lambda e: self.block(st.body, e, kr), lambda e: self.block(st.orelse, e, kr))
@@ -1105,21 +1668,43 @@ class FuncTranslator:
                              else "(fun (r : %s) => r.%s)" % (r["lean"], path))
             return "[" + ", ".join(items) + "]", PROJ(recname, ft0)
         xs, t = self.expr(node, env)
+        if t[0] == "dict":
+            return "(List.map Prod.fst %s)" % xs, t[1]       # iterating a dict = its keys, insertion order
         if t[0] != "list" or t[1] is None:
             self.bad(node, "loop over a value of type %r" % (t,))
         return xs, t[1]
 
     def for_stmt(self, st, rest, env, k):
-        if st.orelse or not isinstance(st.target, ast.Name):
-            self.bad(st, "only `for name in xs:` without else")
+        if self.exc:
+            # a raising call in the iterable is evaluated before the loop
+            return self.with_hoists(lambda: self.for_stmt0(st, rest, env, k), lambda s: s)
+        return self.for_stmt0(st, rest, env, k)
+
+    def for_stmt0(self, st, rest, env, k):
+        tuple_target = (isinstance(st.target, ast.Tuple) and len(st.target.elts) >= 2
+                        and all(isinstance(e_, ast.Name) for e_ in st.target.elts))
+        if st.orelse or not (isinstance(st.target, ast.Name) or tuple_target):
+            self.bad(st, "only `for name in xs:` / `for a, b in xs:` without else")
         xs, et = self.iterable(st.iter, env)
-        x = lean_ident(st.target.id)
         env_in = dict(env)
-        env_in[st.target.id] = Var(x, et)
+        unpack = ""
+        if tuple_target:
+            # `for a, b in xs`: the elements are tuples of that length
+            if et[0] != "tuple" or len(et[1]) != len(st.target.elts):
+                self.bad(st, "cannot unpack loop elements of type %r into %d names" % (et, len(st.target.elts)))
+            x = self.fresh("it")
+            n_ = len(et[1])
+            for i, (e_, t_) in enumerate(zip(st.target.elts, et[1])):
+                path = ".2" * i + (".1" if i < n_ - 1 else "")
+                env_in[e_.id] = Var(lean_ident(e_.id), t_)
+                unpack += "let %s := %s%s;\n" % (lean_ident(e_.id), x, path)
+        else:
+            x = lean_ident(st.target.id)
+            env_in[st.target.id] = Var(x, et)
         body = [s for s in st.body if not self.is_dropped(s)]
         # idiom 1: for x in xs: [assignments]; if c: return True/False  ...  return False/True
         last = body[-1] if body else None
-        if (isinstance(last, ast.If) and not last.orelse and len(last.body) == 1
+        if (not tuple_target and isinstance(last, ast.If) and not last.orelse and len(last.body) == 1
                 and isinstance(last.body[0], ast.Return) and isinstance(last.body[0].value, ast.Constant)
                 and isinstance(last.body[0].value.value, bool)
                 and not self.contains_exit(body[:-1])):
@@ -1147,17 +1732,18 @@ class FuncTranslator:
                 return self.block(body, e, kk)
             finally:
                 self.loop_k.pop()
-        saved = self.counter
         probes = []
 
         def pk(e):
             probes.append(e)
             return "?"
-        run_body(env_in, pk)
-        self.counter = saved
+        body_events = self.probe(lambda: run_body(env_in, pk))
+        monadic = self.exc and body_events > 0        # the body can raise: the state is an `Except`
         names = [n for n in self.changed_vars(env_in, probes) if n in env]
-        if not names:
+        if not names and not monadic:
             return self.block(rest, env, k)
+        if not names:
+            self.bad(st, "a loop whose body can raise but assigns nothing")
         # the state types after one iteration (refines `[]` : list of unknown)
         st_types = {}
         for n in names:
@@ -1172,9 +1758,7 @@ class FuncTranslator:
             env_body[n] = Var(lean_ident(n), st_types[n])
         # second probe with the refined types must be stable
         probes2 = []
-        saved = self.counter
-        run_body(env_body, lambda e: (probes2.append(e), "?")[1])
-        self.counter = saved
+        self.probe(lambda: run_body(env_body, lambda e: (probes2.append(e), "?")[1]))
         for pe in probes2:
             for n in names:
                 if self.unify(pe[n].type, st_types[n]) != st_types[n]:
@@ -1183,19 +1767,79 @@ class FuncTranslator:
         def tup(e):
             vals = [self.coerce(e[n].lean, e[n].type, st_types[n], st) for n in names]
             return vals[0] if len(vals) == 1 else "(" + ", ".join(vals) + ")"
-        step = run_body(env_body, tup)
+
+        def tup_ok(e):
+            return "(Except.ok %s)" % tup(e)
+        step = unpack + run_body(env_body, tup_ok if monadic else tup)
         tys = [self.lean_type(st_types[n]) for n in names]
         sty = tys[0] if len(tys) == 1 else " × ".join(tys)
         pat = lean_ident(names[0]) if len(names) == 1 else "(" + ", ".join(lean_ident(n) for n in names) + ")"
         init = tup(env)
-        fold = "(List.foldl (fun (st : %s) (%s : %s) =>\n    (match st with\n      | %s =>\n%s))\n  %s\n  %s)" % (
-            sty, x, self.lean_type(et), pat, indent(step, 8), init, xs)
         env2 = dict(env)
         for n in names:
             env2[n] = Var(lean_ident(n), st_types[n])
+        if monadic:
+            # an exception ends the loop: the error state is passed through the remaining elements
+            fold = ("(List.foldl (fun (st : Except PErr (%s)) (%s : %s) =>\n    (match st with\n      | .error err => Except.error err\n"
+                    "      | .ok %s =>\n%s))\n  (.ok %s)\n  %s)") % (
+                sty, x, self.lean_type(et), pat, indent(step, 8), init, xs)
+            return "(match %s with\n  | .error err => Except.error err\n  | .ok %s => %s)" % (
+                fold, pat, _arm(self.block(rest, env2, k)))
+        fold = "(List.foldl (fun (st : %s) (%s : %s) =>\n    (match st with\n      | %s =>\n%s))\n  %s\n  %s)" % (
+            sty, x, self.lean_type(et), pat, indent(step, 8), init, xs)
         if len(names) == 1:
             return "let %s := %s;\n%s" % (pat, fold, self.block(rest, env2, k))
         return "(match %s with\n  | %s => %s)" % (fold, pat, _arm(self.block(rest, env2, k)))
+
+    def try_stmt(self, st, rest, env, k):
+        """try: BODY / except E [as ex]: HANDLER — BODY is translated to an `Except PErr (assigned vars)`; the
+        handler of E continues with the variables as they were BEFORE the try (BODY's assignments are lost
+        when it raises: BODY may only assign, so this is exact), every other error is passed on"""
+        if not self.exc:
+            self.bad(st, "`try` needs a function with `exc`")
+        if st.orelse or st.finalbody:
+            self.bad(st, "try/else and try/finally")
+        body = [s_ for s_ in st.body if not self.is_dropped(s_)]
+        if self.contains_exit(body) or any(isinstance(n, (ast.Yield, ast.YieldFrom)) for s_ in body for n in ast.walk(s_)):
+            self.bad(st, "return/raise/continue/yield inside a `try` body")
+        arms, seen = [], set()
+        for h in st.handlers:
+            name = ast.unparse(h.type) if h.type is not None else None
+            if name not in EXCEPTIONS or name == "AttributeError":
+                self.bad(h, "only `except E [as name]:` with E one of %s"
+                         % sorted(x for x in EXCEPTIONS if x != "AttributeError"))
+            ctor = EXCEPTIONS[name]
+            if ctor in seen:
+                continue            # an earlier handler of the same exception wins
+            seen.add(ctor)
+            # `as ex` binds nothing here: `ex` may only occur in dropped logger calls
+            arms.append((ctor, h))
+        probes = []
+        self.probe(lambda: self.block(body, env, lambda e: (probes.append(e), "?")[1]))
+        names = [n for n in self.changed_vars(env, probes) if all(n in pe for pe in probes)]
+        jt = {}
+        for n in names:
+            t = probes[0][n].type
+            for pe in probes[1:]:
+                t = self.unify(t, pe[n].type) if t is not None else None
+            if t is None or t[0] == "none":
+                self.bad(st, "cannot type `%s` after the try body" % n)
+            jt[n] = INT if t == LIT else t
+
+        def tup_ok(e):
+            vals = [self.coerce(e[n].lean, e[n].type, jt[n], st) for n in names]
+            return "(Except.ok %s)" % ("()" if not vals else vals[0] if len(vals) == 1 else "(" + ", ".join(vals) + ")")
+        b = self.block(body, env, tup_ok)
+        env2 = dict(env)
+        for n in names:
+            env2[n] = Var(lean_ident(n), jt[n])
+        pat = "()" if not names else lean_ident(names[0]) if len(names) == 1 else "(" + ", ".join(lean_ident(n) for n in names) + ")"
+        sty = " × ".join(self.lean_type(jt[n]) for n in names) if names else "Unit"
+        out = "(match (%s : Except PErr (%s)) with\n  | .ok %s => %s" % (b, sty, pat, _arm(self.block(rest, env2, k)))
+        for ctor, h in arms:
+            out += "\n  | .error %s => %s" % (ctor, _arm(self.block(list(h.body) + list(rest), env, k)))
+        out += "\n  | .error err => Except.error err)"
+        return out
 
     # -- declarations generated from class definitions --------------------------------------------
     def decl(self, kind, name):
@@ -1232,15 +1876,32 @@ class FuncTranslator:
             raise Untranslatable(self.fn, None, "function not found in %s" % spec["file"])
         self.source_text = ast.get_source_segment(src, node)
         a = node.args
-        if a.vararg or a.kwarg or a.kwonlyargs or a.posonlyargs:
+        if a.vararg or a.kwarg or a.posonlyargs or (a.kwonlyargs and not self.exc):
             self.bad(node, "only plain positional parameters")
-        pynames = [x.arg for x in a.args]
+        # keyword-only parameters (functions with `exc`) are ordinary parameters of the Lean definition, in
+        # source order after the positional ones; calls from translated callers bind them by name
+        pynames = [x.arg for x in a.args] + [x.arg for x in a.kwonlyargs]
         if pynames != [p for p, _ in spec["params"]]:
             self.bad(node, "parameters are %s, the signature table expects %s" % (pynames, [p for p, _ in spec["params"]]))
-        for d in a.defaults:
-            if not (isinstance(d, ast.Constant) and d.value is None):
-                self.bad(node, "only `= None` parameter defaults")
+        defaults = {}
+        for x, d in zip(a.args[len(a.args) - len(a.defaults):], a.defaults):
+            defaults[x.arg] = d
+        for x, d in zip(a.kwonlyargs, a.kw_defaults):
+            if d is not None:
+                defaults[x.arg] = d
+        if not self.exc:
+            for d in defaults.values():
+                if not (isinstance(d, ast.Constant) and d.value is None):
+                    self.bad(node, "only `= None` parameter defaults")
         self.raises = any(isinstance(n, ast.Raise) for n in ast.walk(node)) or self.contains_exit_calls(node)
+        self.generator = any(isinstance(n, (ast.Yield, ast.YieldFrom)) for n in ast.walk(node))
+        if self.generator:
+            if not self.exc or spec["ret"][0] != "list" or spec["ret"][1] is None:
+                self.bad(node, "a generator needs `exc` and a list result type in the signature table")
+            if any(isinstance(n, ast.YieldFrom) for n in ast.walk(node)):
+                self.bad(node, "`yield from`")
+            if any(isinstance(n, ast.Name) and n.id == YIELD_ACC for n in ast.walk(node)) or YIELD_ACC in pynames:
+                self.bad(node, "the name `%s` is reserved for the list of yielded values" % YIELD_ACC)
         decls = [self.decl(kind, name) for kind, name in spec.get("decls", [])]
         env = {}
         params = []
@@ -1248,17 +1909,32 @@ class FuncTranslator:
             if t[0] == "rec":
                 self.record(t[1])
             env[p] = Var(lean_ident(p), t)
-            params.append("(%s : %s)" % (lean_ident(p), self.lean_type(t)))
+            self.params[p] = env[p]
+            dflt = ""
+            if self.exc and p in defaults:
+                # a constant default becomes the default value of the Lean parameter
+                d = defaults[p]
+                if not isinstance(d, ast.Constant):
+                    self.bad(d, "only constant parameter defaults")
+                dv, dt = self.expr(d, {})
+                dflt = " := %s" % self.coerce(dv, dt, t, d)
+            params.append("(%s : %s%s)" % (lean_ident(p), self.lean_type(t), dflt))
         for key, (ln, t) in spec.get("externs", {}).items():
             params.append("(%s : %s)" % (ln, self.lean_type(t)))
         rt = self.lean_type(spec["ret"])
-        if self.raises:
+        if self.exc:
+            rt = "Except PErr %s" % self.paren_type(spec["ret"])
+        elif self.raises:
             rt = "Option (%s)" % rt if " " in rt else "Option " + rt
 
         def fall_off(e):
             # falling off the end of a Python function returns None
             return self.ret(None, e, node)
-        body = self.block(list(node.body), env, fall_off)
+        if self.generator:
+            env["yield"] = Var(YIELD_ACC, spec["ret"])
+            body = "let %s : %s := [];\n%s" % (YIELD_ACC, self.lean_type(spec["ret"]), self.block(list(node.body), env, fall_off))
+        else:
+            body = self.block(list(node.body), env, fall_off)
         used_externs = spec.get("externs", {})
         for key, (ln, _) in used_externs.items():
             if ln not in body:
@@ -1330,7 +2006,7 @@ def render(spec, sources):
         "   function : %s" % spec["func"],
         "   sha256   : %s  (of the function's source text) -/" % sha256(tr.source_text),
     ]
-    for imp in spec["imports"]:
+    for imp in list(spec["imports"]) + [i for i in tr.extra_imports if i not in spec["imports"]]:
         lines.append("import %s" % imp)
     lines.append("set_option linter.unusedVariables false")
     lines.append("namespace BV.GenF")
@@ -1344,10 +2020,178 @@ def render(spec, sources):
     return fname, "\n".join(lines), None
 
 
+PRELUDE = """/- GENERATED by harness/translate_funcs.py (fixed text). Do not edit.
+   The Python built-ins that the translated functions of the bump core use and that the model has no name
+   for: insertion-ordered dicts as association lists with distinct keys, and `int(str)` with its ValueError.
+   They are TRUSTED (documented in harness/TRANSLATE_FUNCS.md), like `replaceAll`/`strToNat` in Model/Basic. -/
+import BumpverVerif.Model.V2Version
+namespace BV.GenF
+
+/-- `d[k] = v`: an existing key keeps its position and gets the new value, a new key is appended -/
+def dictSet {α : Type} (k : Str) (v : α) : List (Str × α) → List (Str × α)
+  | [] => [(k, v)]
+  | (k', v') :: rest => if k = k' then (k', v) :: rest else (k', v') :: dictSet k v rest
+
+/-- `dict(pairs)`: later pairs overwrite earlier ones with the same key -/
+def dictOfList {α : Type} (xs : List (Str × α)) : List (Str × α) :=
+  xs.foldl (fun d kv => dictSet kv.1 kv.2 d) []
+
+/-- `k in d` -/
+def dictHas {α : Type} (k : Str) (d : List (Str × α)) : Bool := (lookup k d).isSome
+
+/-- `int(s)`: ValueError unless `s` is a non-empty string of ASCII digits.  (Python also accepts
+    surrounding whitespace, a sign, `_` between digits and non-ASCII digits: outside the modelled language,
+    the same restriction as the hand model's.) -/
+def pyInt (s : Str) : Except PErr Nat :=
+  if isDigitStr s then .ok (strToNat s) else .error .valueError
+
+end BV.GenF
+"""
+
+
+def render_recdyn(sup, sources):
+    """Gen/F_<Rec>Dyn.lean: the run-time views of a NamedTuple (getattr by a run-time name, `_asdict()`,
+    `Rec(**d)`), generated from the class definition and the field map of the signature table"""
+    fname = "F_%s.lean" % sup["name"]
+    rec = sup["record"]
+    d = RECORDS[rec]
+    tr = FuncTranslator(dict(name=sup["name"], func="class " + d["source"][1], file=d["source"][0],
+                             params=[], ret=NONE, imports=[]), sources)
+    where = "src/bumpver/%s" % d["source"][0]
+    try:
+        r = tr.record(rec)
+        src, node = sources.find(d["source"][0], ast.ClassDef, d["source"][1])
+        text = ast.get_source_segment(src, node)
+        by_name = {f: (path, t) for f, path, t in r["fields"]}
+        consts = d.get("consts", {})
+        rows = []       # (python field, Lean value of type FV as a function of `v`, how to read it back)
+        for f in r["pyorder"]:
+            if f in by_name:
+                path, t = by_name[f]
+                if t == NAT:
+                    rows.append((f, "FV.nat v.%s" % path, "nat", path))
+                elif t == STR:
+                    rows.append((f, "FV.str v.%s" % path, "str", path))
+                elif t == OPT(NAT):
+                    rows.append((f, "optNat v.%s" % path, "optnat", path))
+                else:
+                    tr.bad(None, "field `%s` of type %r has no run-time view" % (f, t))
+            elif f in consts and consts[f][0] == STR:
+                rows.append((f, "FV.str %s" % lean_str(consts[f][1]), "const", lean_str(consts[f][1])))
+            else:
+                tr.bad(None, "field `%s` of %s is neither modelled nor declared constant" % (f, d["source"][1]))
+    except Untranslatable as ex:
+        return fname, "\n".join([
+            "/- GENERATED by harness/translate_funcs.py. Do not edit.",
+            "   source   : %s" % where,
+            "   class    : %s" % d["source"][1],
+            "",
+            "   UNTRANSLATABLE: %s" % str(ex).replace("-/", "- /"),
+            "   (no run-time views are generated; the functions that use them cannot compile) -/",
+            ""]), ex
+    L = d["lean"]
+    out = [
+        "/- GENERATED by harness/translate_funcs.py from the class definition. Do not edit.",
+        "   source   : %s" % where,
+        "   class    : %s" % d["source"][1],
+        "   sha256   : %s  (of the class's source text)" % sha256(text),
+        "",
+        "   The run-time views of the NamedTuple, for code that uses field NAMES as data.  A Lean `%s` stands for" % L,
+        "   the Python values whose unmodelled fields are the constants %s." % (
+            ", ".join("%s = %r" % (f, c[1]) for f, c in consts.items()) or "(none)"),
+        "   A value whose type is only known at run time is an `FV` (None | int >= 0 | str). -/",
+        "import BumpverVerif.Model.V2Version",
+        "import BumpverVerif.Gen.F_PyPrelude",
+        "set_option linter.unusedVariables false",
+        "namespace BV.GenF",
+        "",
+        "/-- `getattr(v, f)` with `f` a run-time string; AttributeError (`.unsupported`) for any other name -/",
+        "def getattr%s (v : %s) (f : Str) : Except PErr FV :=" % (rec, L),
+    ]
+    for i, (f, val, _, _) in enumerate(rows):
+        out.append("  %sif f = %s then .ok (%s)" % ("" if i == 0 else "else ", lean_str(f), val))
+    out.append("  else .error .unsupported")
+    out.append("")
+    out.append("/-- `v._asdict()`: every field in class order -/")
+    out.append("def asdict%s (v : %s) : List (Str × FV) :=" % (rec, L))
+    out.append("  [" + ",\n   ".join("(%s, %s)" % (lean_str(f), val) for f, val, _, _ in rows) + "]")
+    out.append("")
+    out.append("/-- the field names of the class, in order -/")
+    out.append("def fieldNames%s : List Str :=" % rec)
+    out.append("  [" + ", ".join(lean_str(f) for f, _, _, _ in rows) + "]")
+    out.append("")
+    out.append("/-- keyword argument `k` of `%s(**d)`: TypeError when it is missing -/" % d["source"][1])
+    out.append("def kwarg%s (d : List (Str × FV)) (k : Str) : Except PErr FV :=" % rec)
+    out.append("  match lookup k d with")
+    out.append("  | none => .error .typeError")
+    out.append("  | some x => .ok x")
+    out.append("")
+    out.append("/-- a run-time value used as an `int` field / an `Optional[int]` field / a `str` field / an unmodelled")
+    out.append("    constant field; a value of another type has no counterpart in `%s`: `.unsupported` -/" % L)
+    out.append("def asNat%s : FV → Except PErr Nat" % rec)
+    out.append("  | .nat n => .ok n")
+    out.append("  | _ => .error .unsupported")
+    out.append("def asOptNat%s : FV → Except PErr (Option Nat)" % rec)
+    out.append("  | .nat n => .ok (some n)")
+    out.append("  | .none => .ok none")
+    out.append("  | _ => .error .unsupported")
+    out.append("def asStr%s : FV → Except PErr Str" % rec)
+    out.append("  | .str s => .ok s")
+    out.append("  | _ => .error .unsupported")
+    out.append("def asConst%s (c : Str) : FV → Except PErr Unit" % rec)
+    out.append("  | .str s => if s = c then .ok () else .error .unsupported")
+    out.append("  | _ => .error .unsupported")
+    out.append("")
+    out.append("/-- `%s(**d)`: TypeError for an unexpected or a missing keyword -/" % d["source"][1])
+    out.append("def ofdict%s (d : List (Str × FV)) : Except PErr %s :=" % (rec, L))
+    out.append("  if !(d.all (fun kv => fieldNames%s.elem kv.1)) then .error .typeError else" % rec)
+    conv = {"nat": "asNat", "str": "asStr", "optnat": "asOptNat"}
+    for f, _, kind, path in rows:
+        x = "x_" + f
+        if kind == "const":
+            out.append("  match (kwarg%s d %s).bind (asConst%s %s) with" % (rec, lean_str(f), rec, path))
+            out.append("  | .error err => Except.error err")
+            out.append("  | .ok _ =>")
+        else:
+            out.append("  match (kwarg%s d %s).bind %s%s with" % (rec, lean_str(f), conv[kind], rec))
+            out.append("  | .error err => Except.error err")
+            out.append("  | .ok %s =>" % x)
+    # the structure instance, nested by path prefix
+    groups = {}
+    order = []
+    for f, _, kind, path in rows:
+        if kind == "const":
+            continue
+        if "." in path:
+            g, leaf = path.split(".", 1)
+            if g not in groups:
+                groups[g] = []
+                order.append(("group", g))
+            groups[g].append("%s := x_%s" % (leaf, f))
+        else:
+            order.append(("field", "%s := x_%s" % (path, f)))
+    items = []
+    for kind, x in order:
+        items.append("%s := { %s }" % (x, ", ".join(groups[x])) if kind == "group" else x)
+    out.append("  .ok { " + ", ".join(items) + " }")
+    out.append("")
+    out.append("end BV.GenF")
+    out.append("")
+    return fname, "\n".join(out), None
+
+
 def generate(report=None):
     """{filename: content} for lean/BumpverVerif/Gen/"""
     sources = Sources()
     out = {}
+    for sup in SUPPORT:
+        if sup["kind"] == "prelude":
+            out["F_%s.lean" % sup["name"]] = PRELUDE
+        elif sup["kind"] == "recdyn":
+            fname, content, err = render_recdyn(sup, sources)
+            out[fname] = content
+            if report is not None:
+                report.append(("class " + RECORDS[sup["record"]]["source"][1], fname, err))
     for spec in FUNCS:
         fname, content, err = render(spec, sources)
         out[fname] = content
